@@ -687,6 +687,16 @@ def holds(t, env, funs=REAL_FUNS):
 def py_equal(a, b):
     if a is ANY or b is ANY:
         return True
+    try:
+        import numpy as _np
+        if isinstance(a, _np.generic):
+            a = a.item()
+        if isinstance(b, _np.generic):
+            b = b.item()
+    except Exception:
+        pass
+    if isinstance(a, float) and isinstance(b, float) and a != a and b != b:
+        return True
     if isinstance(a, float) or isinstance(b, float):
         try:
             return abs(float(a) - float(b)) <= 1e-9 * max(1.0, abs(float(a)), abs(float(b)))
